@@ -285,6 +285,14 @@ var c01Templates = []tmpl{
 		}
 		return outInt(0)
 	}},
+	{"power-chain-associates-left", `2 ** 3 ** 2 + a`, func(a, b, c, n int64) tOut { return outInt(64 + a) }},
+	{"power-binds-tighter-than-product", `2 * 3 ** 2 + a`, func(a, b, c, n int64) tOut { return outInt(18 + a) }},
+	{"three-defers-middle-one-raises", `f := func() { defer emit(1); defer func() { error("boom") }(); defer emit(3); emit(0) }; try(f, func(e) { emit(9) }); a`, func(a, b, c, n int64) tOut {
+		return outEmit(rvInt(a), 0, 3, 1, 9)
+	}},
+	{"two-defers-last-registered-raises", `f := func() { defer emit(1); defer emit(2); defer func() { error("boom") }(); emit(0) }; try(f, func(e) { emit(9) }); a`, func(a, b, c, n int64) tOut {
+		return outEmit(rvInt(a), 0, 2, 1, 9)
+	}},
 	{"error-raised", `error("boom"); a`, func(a, b, c, n int64) tOut { return outErr() }},
 	{"division-by-zero-error", `a / b`, func(a, b, c, n int64) tOut {
 		if b == 0 {
